@@ -434,11 +434,12 @@ class C10NoSpam(Monitor):
 
     @classmethod
     def wrap_handlers(cls):
-        if cls._wrapped:
-            return
         from bert_e.reactor import Reactor, Command
         from bert_e.workflow import gitwaterflow  # noqa: registers commands
         for key, cmd in list(Reactor.get_commands().items()):
+            if getattr(cmd.handler, '_vf_wrapped', False):
+                continue    # (a fresh "process" re-registers the handlers)
+
             def make(key, handler):
                 def wrapper(job, *args):
                     C10NoSpam.executions.append(
@@ -446,6 +447,7 @@ class C10NoSpam(Monitor):
                     return handler(job, *args)
                 wrapper.__doc__ = handler.__doc__
                 wrapper.__name__ = getattr(handler, '__name__', key)
+                wrapper._vf_wrapped = True
                 return wrapper
             Reactor.__callbacks__[key] = Command(
                 make(key, cmd.handler), cmd.help, cmd.privileged,
@@ -458,6 +460,7 @@ class C10NoSpam(Monitor):
         hist.mon_state['c10_exec'] = {}
 
     def before_job(self, hist, job, step):
+        self.wrap_handlers()
         C10NoSpam.executions = []
 
     def after_job(self, hist, res, step):
@@ -523,6 +526,7 @@ class C15Reset(Monitor):
         return None
 
     def before_job(self, hist, job, step):
+        C10NoSpam.wrap_handlers()
         C10NoSpam.executions = []
         self.pre = None
         if type(job).__name__ != 'PullRequestJob':
